@@ -45,7 +45,7 @@ package kernel
 //@ func (chain *Chain) prepareAnnouncement
 //@   property C24
 //@   trustpre Gap asFinal IsPledging -- RoundOK / representation of the round copies belong to C19, Pledging to C10
-//@   requires ChainOK(chain) && AggsShape(chain) && !isnil(chain.persistStore)
+//@   requires CosiChainOK(chain) && AggsShape(chain) && !isnil(chain.persistStore)
 //@   requires m != nil && m.Snapshot != nil && m.data != nil
 //@   maypanic
 //@   modifies chain.CosiAggregators, chain.CosiVerifiers, m.Snapshot.RoundNumber, m.Snapshot.References, ghost bytes_cachequeue, ghost store_errors, ghost kernel_graph_state
